@@ -80,7 +80,8 @@ pub struct Case {
 fn strategy() -> BoxedStrategy<Case> {
     bx((
         0u8..4,
-        super::c18::seed_strategy(),
+        // seeds whose per-chain offsets (seed + i + 1) wrap are given real weight
+        prop_oneof![3 => super::c18::seed_strategy(), 1 => (0u64..8).prop_map(|k| u64::MAX - k)],
         any::<u64>(),
         1usize..=8,
         4usize..12,
